@@ -86,18 +86,22 @@ def tokens(ld):
     def tok_id(k):
         return ids.setdefault(k, len(ids) + 1)
 
+    EMPTY = {(None, "0"), ("0", "0")}
+
     def tok_save(i, d, rd):
-        if rd == "0" or (rd is None and d == "0"):
+        key = (d if obj else None, rd if rd is not None else ("0" if d == "0" else "?"))
+        if key in EMPTY:
             return 0
         m = conts.setdefault(i, {})
-        return m.setdefault((d if obj else None, rd), len(m) + 1)
+        return m.setdefault(key, len(m) + 1)
 
     def tok_get(i, d, rd):
         m = conts.get(i, {})
         if rd is not None:                      # a read of the fresh loader: rows, and the object where the family is judged at that level
-            if rd == "0" and (not obj or d == "0"):
+            key = (d if obj else None, rd)
+            if key in EMPTY:
                 return 0
-            return m.get((d if obj else None, rd), 9)
+            return m.get(key, 9)
         if d == "0":                            # an in-run read: object digest only
             return 0
         hit = [t for (dd, _), t in m.items() if dd == d]
